@@ -78,6 +78,9 @@ def signature(ev, events):
         return "Asked:position-or-count:after-return=%s" % after
     if k == "Release":
         return "Release:%s:intact=%s" % (ev["o"], ev["intact"])
+    if k == "UpCtxDone":
+        return "UpCtxDone:exchange-context-ended-early:returned=%s:after=%s" % (
+            any(e["ev"] == "Return" for e in events[:events.index(ev)]) if ev in events else "?", "+".join(before) or "nothing")
     if k == "End":
         return "End:alive=%s" % (ev["alive"] if ev["alive"] == 0 else ">0")
     if k == "Quiet":
@@ -112,7 +115,8 @@ def replay(ctx):
         job = {"behaviours": [d["beh"]] * 5, "random": 0}
     else:
         job = {"behaviours": [], "random": 400, "real_never": 2 if d.get("kind") == "never" else 0,
-               "early": 400 if str(d.get("kind")).startswith("early") else 0}
+               "early": 400 if str(d.get("kind")).startswith("early") else 0,
+               "multi": 120 if d.get("kind") == "multi" else 0}
     recs, _ = vlib.run_driver(ctx, binary, stdin_obj=job)
     ctx.cov["evaluations"] = len(recs)
     judge(ctx, recs)
@@ -125,6 +129,8 @@ def run(ctx):
     rng = random.Random(ctx.seed)
     ctx.assumptions += [
         "U is the list after tag selection; tags are distinct (the same tag given twice is not exercised)",
+        "harness upstreams honour the context they are given; that context may end before the scripted release only after the "
+        "call has returned or after the 5 s upstream timeout (4.9..6.5 s after the exchange started)",
         "the query is compared byte-for-byte with dns.Msg.Pack() of the query in the context",
         "a silent upstream honours the context it is given (quick tier: it is released once the call has returned; "
         "thorough tier: some runs wait for the worker's real 5 s timeout)",
@@ -173,9 +179,12 @@ def run(ctx):
     log("replaying %d of %d generated schedules" % (len(behs), n_all))
 
     binary = vlib.go_build(ctx, "drv_forward")
-    job = {"behaviours": behs, "random": 4000 if T else 400, "real_never": 14 if T else 0, "early": 3000 if T else 400}
+    job = {"behaviours": behs, "random": 4000 if T else 400, "real_never": 14 if T else 0, "early": 3000 if T else 400,
+           "multi": 600 if T else 120}
     recs, _ = vlib.run_driver(ctx, binary, stdin_obj=job, timeout=1500)
     want = len(behs) + job["random"] + job["real_never"] + job["early"]
+    n_multi = sum(1 for r in recs if r["kind"] == "multi")
+    ctx.cov["multi_exec_runs"] = n_multi
     ctx.cov["early_return_runs"] = sum(1 for r in recs if r["kind"].startswith("early"))
     ctx.cov["exchanges_started_after_return"] = sum(
         1 for r in recs for i, e in enumerate(r["events"])
@@ -223,8 +232,8 @@ def run(ctx):
             vlib.assert_rejects(ctx, "Forward_Trace", "Forward_Trace.cfg", [t1, t2, t3, t4],
                                 "Return reply->failed; asked position changed; query bytes flagged different; one goroutine left")
     if not ctx.violations and not ctx.known_hits:
-        if len(recs) != want:
-            raise vlib.Infra("driver returned %d results for %d jobs" % (len(recs), want))
+        if len(recs) - n_multi != want or n_multi < 3 * job["multi"]:
+            raise vlib.Infra("driver returned %d (+%d multi-exec) results for %d jobs" % (len(recs) - n_multi, n_multi, want))
         if len(steered) < len(behs) // 2:
             raise vlib.Infra("dead driver: only %d of %d schedules could be steered; first reasons: %s" % (
                 len(steered), len(behs), [r.get("why") for r in recs if r["kind"] == "replay" and not r["steered"]][:5]))
